@@ -33,6 +33,18 @@ def gen_cases(ctx, n):
                 if line.strip() and not line.startswith('#'):
                     cases.append(line.strip())
     while len(cases) < n:
+        if r.random() < 0.03:
+            # a peer that keeps sending well-formed frames with FOREIGN transaction ids, spaced by less than the
+            # request's timeout (1000 ms): they must not keep the outstanding request alive beyond its deadline
+            toks = []
+            for _ in range(r.choice([3, 4, 5])):
+                pdu = fg.response_pdu(r, fc=3)
+                toks.append(fg.hexs(fg.mbap(r.randrange(1, 65536), 1, pdu, r)))
+                toks.append(f'@T{r.choice([300, 400, 450])}')
+            if r.random() < 0.5:
+                toks.append(fg.hexs(fg.mbap(0, 1, [3, 10, 0, 1, 0, 2, 0, 3, 0, 4, 0, 5], r)))
+            cases.append(f'client tcp {r.choice(levels)} ' + ' '.join(toks))
+            continue
         role = r.choice(['server', 'client'])
         framing = r.choice(['tcp', 'rtu'])
         fc, lead = fg.client_request(r) if role == 'client' else (3, [])
@@ -282,6 +294,10 @@ def run(ctx):
                 problem = 'task did not honour shutdown after the stream'
             elif role == 'client' and kv.get('request_completed') != '1':
                 problem = 'outstanding request never completed'
+            elif role == 'client' and kv.get('pending_after_deadline') == '1' and '@Wb' not in c:
+                problem = "frames from the peer kept the outstanding request pending beyond its own timeout"
+            if '@T' in c:
+                classes['foreign-frames-across-the-deadline'] = classes.get('foreign-frames-across-the-deadline', 0) + 1
         elif o == 'SKIPPED':
             continue
         else:
@@ -326,7 +342,7 @@ def shrink_case(ctx, case):
         for o in outs:
             if o.startswith('ok'):
                 kv = dict(x.split('=', 1) for x in o.split()[1:])
-                res.append(kv.get('shutdown_ok') != '1' or ('request_completed' in kv and kv['request_completed'] != '1'))
+                res.append(kv.get('shutdown_ok') != '1' or ('request_completed' in kv and kv['request_completed'] != '1') or kv.get('pending_after_deadline') == '1')
             else:
                 res.append(o != 'SKIPPED')
         return res
